@@ -1,6 +1,6 @@
 """Property -> rules table. Each rule callable: (prog, tier, repo) -> [RuleResult]."""
 from .rules import traversal_instances as TI
-from .rules import gate, lookup_unwrap, heap, witness, incremental, optimizer, const_arith, shape, backend, printer_rules, comment_linear, enum_evidence, ssa_shared, lex_bounds, gc_rules, scope, eval_order, guard_table, relation, type_walker, str_slice
+from .rules import gate, lookup_unwrap, heap, witness, incremental, optimizer, const_arith, shape, backend, printer_rules, comment_linear, enum_evidence, ssa_shared, lex_bounds, gc_rules, scope, eval_order, guard_table, relation, type_walker, str_slice, loc_guard
 
 PROPERTIES = {}
 
@@ -112,8 +112,10 @@ prop('C15', COMMON +
      'TRAVERSAL/SIBLING: the renamer and the scope analysis visit every identifier-, expression- and pattern-bearing '
      'child of every node. SSA-SHARED: the definition/uses records of the services crate are built only from the '
      'fields of the checker\'s SsaAnalysisResult, which is only obtained from perform_ssa_analysis_on_module (no second '
-     'scope resolver). Does not decide capture-freedom of the new name or behavioural identity after rename.',
-     [ssa_shared.run, scope.run_iflet_else, TI.make(['T-ren', 'T-ssa'])])
+     'scope resolver). NAV-VIA-SSA: every path of a navigation query that handles a local-name hit passes through the SSA '
+     'lookup. LOC-GUARD: a cursor-position test gating the descent into a child tests a location of that child or of a node '
+     'containing it (sibling locations only where the parser provably widens them). Does not decide capture-freedom of the new name or behavioural identity after rename.',
+     [ssa_shared.run, ssa_shared.run_nav_via_ssa, loc_guard.run, scope.run_iflet_else, TI.make(['T-ren', 'T-ssa'])])
 
 # properties whose reports on the unchanged tree are not yet triaged are not claimed
 import os as _os
